@@ -4,6 +4,8 @@ import json, sys
 pid = sys.argv[1]
 wt = sys.argv[2]
 n = sys.argv[3] if len(sys.argv) > 3 else '2'
+start = int(sys.argv[4]) if len(sys.argv) > 4 else 1
+last = start + int(n) - 1
 for l in open('/verif/properties.jsonl'):
   d = json.loads(l)
   if d['id'] == pid:
@@ -25,7 +27,9 @@ Your task: produce {n} DIFFERENT, independent, realistic source changes ("seeded
       On the unchanged tree this reports '179 passed' plus 2 failed / 5 collection errors that are pre-existing (missing optional libraries); your change must leave those numbers identical.
   (c) the breakage needs something SPECIFIC to manifest - a particular thread interleaving, a crash or fault at a particular point, a multi-step sequence of operations, an unusual input or configuration value, or two cooperating code sites that each look fine alone. Do NOT make changes that ordinary use would expose at once (e.g. breaking every call). Think of plausible maintenance mistakes: a refactoring that narrows a lock, an off-by-one at a boundary, a wrong comparison direction that only matters in a corner, a swallowed error, a missing re-arm of a one-shot, state not reset on a rare path.
 
-For each change i (1..{n}) create a directory {wt}/_seed/{pid}_i/ containing:
+Make the changes as different from one another as you can: different functions, different mechanisms (e.g. one at an input/boundary value, one in ordering/concurrency or a multi-step history, one on a rarely used configuration or error path).
+
+For each change i ({start}..{last}) create a directory {wt}/_seed/{pid}_i/ containing:
   - patch.diff : the change as a unified diff produced by `git -C {wt} diff` (relative to HEAD, applying cleanly with `git apply`), touching only files under lib/carbon (not tests)
   - demo.py (or demo_test.py): a small self-contained demonstration program, runnable as `PYTHONPATH={wt}/lib /venv/bin/python demo.py`, that exits 0 / passes WITHOUT the change and exits non-zero / fails WITH the change. It may use threads, mocks, fake clocks, twisted test helpers (twisted.internet.task.Clock, twisted.internet.testing.StringTransport), etc. Notes on the environment: Python 3.12; whisper, ceres, mmh3, pyhash, protobuf and OpenSSL are NOT installed; `import carbon.service` fails here (broken txamqp) unless you put `sys.modules['carbon.amqp_listener'] = None` first; carbon.writer / carbon.storage read settings.CONF_DIR at import time.
   - meta.json : {{"property": "{pid}", "summary": "...what was changed...", "needs": "...what specific condition makes it manifest...", "why_tests_pass": "..."}}
